@@ -278,4 +278,21 @@ CLAIMED = {
          "closing handshake are C06/C08; 'a read in flight is always armed or waiting for a flush' is not stated as an "
          "invariant; real partial writes occur only for large frames (kernel-chosen), where only final outcomes are compared."),
    technique="Coq proof (invariant by mutual induction over the flush/continuation functions and over histories; refutation of the pre-repair structure) + correspondence on a real socket + independent oracle"),
+ "C12": dict(
+   text=("PARTIAL proof + full correspondence. Coq theorems (11, closed): (datagrams) for every history of arrivals, reads "
+         "(inline or deferred), buffer re-designations, polls and writes on the model of the multicast peer's read/write paths "
+         "over a kernel queue of whole datagrams: arrivals = datagrams consumed by completed reads (one per callback) ++ queue; "
+         "a completing read delivers exactly the oldest datagram - bytes truncated to the buffer designated last, length, "
+         "sender; a write emits exactly one datagram with the caller's bytes; (settings) TTL() and All() equal the socket's "
+         "after every history of setters, failed ones included; Loop() equals it from the first successful SetLoop on and is "
+         "REFUTED at construction (GetMulticastLoop inverted: known finding C12-getmulticastloop-inverted); (membership, "
+         "environment model of Linux ip_mc_source) join delivers, block stops exactly that source, source-specific join delivers "
+         "exactly that source, other groups unaffected, and the kernel's mode switch on a failed LeaveSource is exhibited. The "
+         "implementation is a real UDPPeer: raw sender sockets with datagram sizes 1..9000 against buffers 1..2000, bursts, "
+         "SetAsyncReadBuffer while pending, writes checked at the receiving socket; getters against getsockopt after every "
+         "setter; every sequence of <= 3 (4 thorough) membership calls over 2 groups x 2 sources, each followed by group traffic."),
+   note=("Trusted: Coq kernel, extraction, harness. The datagram queue and the membership store are models of the KERNEL validated "
+         "by the run, not proved about it; packetConn is exercised by other runs only; IPv6 is unsupported by the peer; setter "
+         "failures are covered by the theorems only (not injected)."),
+   technique="Coq proof (queue invariant over histories, settings invariants, refutation at construction, environment lemmas) + correspondence on real UDP sockets and real multicast group traffic"),
 }
